@@ -141,3 +141,68 @@ Qed.
 (* non-vacuity: the triangular density is an even, well-defined noise density, so its random walk is symmetric *)
 Lemma tri_rw_symmetric s x y : q_rw tri s x y == q_rw tri s y x.
 Proof. apply q_rw_symmetric; [apply tri_even | apply tri_proper]. Qed.
+
+(* ---- (4) detailed balance without positivity: targets that vanish on part of the space (log-density -inf) and proposals
+        with bounded support (Uniform).  alpha0 = 1 where the forward flow pi(x) q(x,y) is zero (the move is never proposed
+        from a state of positive density, or the current state has density zero: MH ratio +inf) ---- *)
+Section NonNeg.
+Variable A : Type.
+Variable pi : A -> Q.
+Variable q : A -> A -> Q.
+Hypothesis pi_nonneg : forall x, 0 <= pi x.
+Hypothesis q_nonneg : forall x y, 0 <= q x y.
+
+Definition alpha0 (x y : A) : Q :=
+  if Qeq_bool (pi x * q x y) 0 then 1 else qmin 1 (pi y * q y x / (pi x * q x y)).
+
+Lemma flow_nonneg x y : 0 <= pi x * q x y.
+Proof. apply Qmult_le_0_compat; [apply pi_nonneg | apply q_nonneg]. Qed.
+
+Lemma flow_alpha0 x y : pi x * q x y * alpha0 x y == qmin (pi x * q x y) (pi y * q y x).
+Proof.
+  pose proof (flow_nonneg x y) as Fa. pose proof (flow_nonneg y x) as Fb.
+  unfold alpha0. set (a := pi x * q x y) in *. set (b := pi y * q y x) in *.
+  destruct (Qeq_bool a 0) eqn:E.
+  - apply Qeq_bool_iff in E. rewrite (qmin_l a b) by (rewrite E; exact Fb). ring.
+  - assert (Na : ~ a == 0) by (intro H; apply Qeq_bool_iff in H; congruence).
+    assert (Pa : 0 < a). { apply Qle_lteq in Fa. destruct Fa as [H|H]; [exact H | exfalso; apply Na; symmetry; exact H]. }
+    destruct (Qlt_le_dec a b) as [H|H].
+    + rewrite (qmin_l 1 (b / a)), (qmin_l a b).
+      * ring.
+      * apply Qlt_le_weak. exact H.
+      * apply Qle_shift_div_l; [exact Pa|]. rewrite Qmult_1_l. apply Qlt_le_weak. exact H.
+    + rewrite (qmin_r 1 (b / a)), (qmin_r a b).
+      * field. exact Na.
+      * exact H.
+      * apply Qle_shift_div_r; [exact Pa|]. rewrite Qmult_1_l. exact H.
+Qed.
+
+Lemma qmin_comm a b : qmin a b == qmin b a.
+Proof.
+  destruct (Qlt_le_dec a b) as [H|H].
+  - rewrite (qmin_l a b), (qmin_r b a) by (apply Qlt_le_weak; exact H). reflexivity.
+  - rewrite (qmin_r a b), (qmin_l b a) by exact H. reflexivity.
+Qed.
+
+Theorem detailed_balance_nonneg x y : pi x * q x y * alpha0 x y == pi y * q y x * alpha0 y x.
+Proof. rewrite (flow_alpha0 x y), (flow_alpha0 y x). apply qmin_comm. Qed.
+
+(* from a state of zero density every proposed move is accepted: the chain can enter the support *)
+Lemma alpha0_zero_density x y : pi x == 0 -> alpha0 x y = 1.
+Proof.
+  intro H. unfold alpha0.
+  assert (E : Qeq_bool (pi x * q x y) 0 = true) by (apply Qeq_bool_iff; rewrite H; ring).
+  rewrite E. reflexivity.
+Qed.
+
+(* a move into a region of zero density is never accepted from a state of positive density *)
+Lemma alpha0_into_zero x y : 0 < pi x * q x y -> pi y == 0 -> alpha0 x y == 0.
+Proof.
+  intros Hp Hy. unfold alpha0.
+  assert (E : Qeq_bool (pi x * q x y) 0 = false).
+  { destruct (Qeq_bool (pi x * q x y) 0) eqn:E; [|reflexivity]. apply Qeq_bool_iff in E. rewrite E in Hp. discriminate. }
+  rewrite E.
+  assert (Z : pi y * q y x / (pi x * q x y) == 0) by (unfold Qdiv; rewrite Hy; ring).
+  rewrite (qmin_r 1 (pi y * q y x / (pi x * q x y))); [exact Z | rewrite Z; discriminate].
+Qed.
+End NonNeg.
